@@ -82,7 +82,7 @@ func scopeDisciplineRuleSSA(r *Run, rule string) {
 		return fn.Object() != nil && !fn.Object().Exported() && !w.coreModel().canonicalSet()[fn]
 	}
 	inline := func(caller, callee *ssa.Function) bool {
-		return callee.Pkg == pkg && isHelper(callee)
+		return pkgOf(callee) == pkg && isHelper(callee)
 	}
 	// roots: functions that are not helpers and reach a writer through helpers
 	var reach func(fn *ssa.Function, seen map[*ssa.Function]bool) bool
@@ -111,7 +111,7 @@ func scopeDisciplineRuleSSA(r *Run, rule string) {
 				if cc == nil {
 					continue
 				}
-				if cal := cc.StaticCallee(); cal != nil && cal.Pkg == pkg && isHelper(cal) && reach(cal, seen) {
+				if cal := cc.StaticCallee(); cal != nil && pkgOf(cal) == pkg && isHelper(cal) && reach(cal, seen) {
 					return true
 				}
 			}
